@@ -381,32 +381,139 @@ def build (controller : List Step) : Outcome :=
   | some o => o
   | none => { final := .ok, printed := [], diff := false }
 
-/-- `buf format`: controller steps (GetWorkspace), FormatBucket + diff (`fmtStep`: a parse error
-    is a plain error here — bufformat does not produce annotation sets), the output step, and
-    the deferred `retErr == nil && --exit-code && diffExists → ErrFileAnnotation`. -/
-def format (exitCodeFlag : Bool) (controller : List Step) (fmtStep : Step) (diffExists : Bool)
-    (output : Step) : Outcome :=
-  match runSteps (controller ++ [fmtStep]) with
-  | some o => o
+/-! ### `buf format` and its output modes
+
+`format.go: run` has one return path per mode.  After the flag validation, `GetWorkspace`,
+`FormatBucket` and the diff, a `defer` turns `retErr == nil && --exit-code && diffExists` into
+`ErrFileAnnotation`; then
+
+* `-d`            copies the diff to stdout and returns (`-o` left at "-" and no `-w`);
+* `-d -w`, `-w`   (after the copy) rewrites the changed files in place and returns;
+* `-d -o X`, `-o X`, plain   (after the copy) writes the formatted files to `X` (a directory or
+  one `.proto` file) resp. to stdout.
+
+The mode is an explicit parameter so that the exit-status theorems quantify over all of them. -/
+
+/-- value of `-o`: "-" (the default, stdout) or a directory / `.proto` file -/
+inductive FmtOut where
+  | stdout
+  | path
+deriving DecidableEq, Repr
+
+/-- the flags that select the return path of `buf format` -/
+structure FmtMode where
+  /-- `-d` -/
+  diff : Bool
+  /-- `-w` -/
+  write : Bool
+  /-- `-o` -/
+  out : FmtOut
+  /-- `--exit-code` -/
+  exitCode : Bool
+deriving DecidableEq, Repr
+
+/-- `-w` and `-o` exclude each other; `-w` needs a source that can be rewritten (a directory or a
+    `.proto` file — not a module reference, archive, git repository). -/
+def FmtMode.valid (m : FmtMode) (srcWritable : Bool) : Bool :=
+  !m.write || (m.out == .stdout && srcWritable)
+
+/-- every mode: {plain, -d, -w, -d -w, -o, -d -o} × {with, without --exit-code} (valid ones),
+    and the rejected combinations with both -w and -o. -/
+def FmtMode.all : List FmtMode :=
+  [false, true].flatMap fun d => [false, true].flatMap fun w => [FmtOut.stdout, FmtOut.path].flatMap fun o =>
+    [false, true].map fun e => { diff := d, write := w, out := o, exitCode := e }
+
+/-- the I/O steps a mode may perform after the diff is known: copy the diff to stdout, rewrite
+    the changed files in place, write the formatted files to the `-o` location (stdout included) -/
+structure FmtIO where
+  copyDiff : Step
+  rewrite : Step
+  output : Step
+deriving DecidableEq, Repr
+
+def FmtIO.ok : FmtIO := { copyDiff := none, rewrite := none, output := none }
+
+/-- what a `buf format` run did besides exiting -/
+structure FmtEffects where
+  /-- the diff text was copied to stdout -/
+  stdoutDiff : Bool
+  /-- the formatted source was written to stdout -/
+  stdoutSource : Bool
+  /-- changed files were rewritten in place -/
+  rewrote : Bool
+  /-- the formatted files were written to the `-o` directory / file -/
+  wroteOut : Bool
+deriving DecidableEq, Repr
+
+def FmtEffects.none : FmtEffects :=
+  { stdoutDiff := false, stdoutSource := false, rewrote := false, wroteOut := false }
+
+/-- the deferred `if retErr == nil && flags.ExitCode && diffExists { retErr = ErrFileAnnotation }` -/
+def fmtDeferred (m : FmtMode) (diffExists : Bool) : Outcome :=
+  if m.exitCode && diffExists then { final := .fileAnnotation, printed := [], diff := true }
+  else { final := .ok, printed := [], diff := false }
+
+/-- the part of `run` after the diff: the return path selected by the mode.  An I/O error
+    returns at once (the deferred function then leaves it alone: `retErr != nil`). -/
+def fmtTail (m : FmtMode) (diffExists : Bool) (io : FmtIO) : Outcome × FmtEffects :=
+  -- `if flags.Diff { if diffExists { io.Copy(stdout, diffBuffer) } … }`
+  let copy : Step := if m.diff && diffExists then io.copyDiff else none
+  match copy with
+  | some e => (failStep e [], FmtEffects.none)
   | none =>
-    match output with
-    | some e => failStep e []
-    | none =>
-      if exitCodeFlag && diffExists then { final := .fileAnnotation, printed := [], diff := true }
-      else { final := .ok, printed := [], diff := false }
+    let eff : FmtEffects := { FmtEffects.none with stdoutDiff := m.diff && diffExists }
+    if m.diff && m.out == .stdout && !m.write then
+      -- "If we haven't overridden the output flag and haven't set write, we can stop here."
+      (fmtDeferred m diffExists, eff)
+    else if m.write then
+      -- only the changed paths are re-written: nothing to do (and nothing to fail) without a diff
+      let rw : Step := if diffExists then io.rewrite else none
+      match rw with
+      | some e => (failStep e [], eff)
+      | none => (fmtDeferred m diffExists, { eff with rewrote := diffExists })
+    else
+      match io.output with
+      | some e => (failStep e [], eff)
+      | none =>
+        (fmtDeferred m diffExists,
+          { eff with stdoutSource := m.out == .stdout, wroteOut := m.out == .path })
+
+/-- the I/O steps the mode actually performs, in order (a step that is not performed cannot fail) -/
+def FmtMode.ioSteps (m : FmtMode) (diffExists : Bool) (io : FmtIO) : List Step :=
+  (if m.diff && diffExists then [io.copyDiff] else []) ++
+  (if m.diff && m.out == .stdout && !m.write then []
+   else if m.write then (if diffExists then [io.rewrite] else [])
+   else [io.output])
+
+/-- `buf format`: flag validation (an invalid combination is an invalid-argument error, i.e.
+    operational), controller steps (GetWorkspace), FormatBucket + diff (`fmtStep`: a parse error
+    is a plain error here — bufformat does not produce annotation sets), then the return path
+    of the mode. -/
+def formatFull (m : FmtMode) (srcWritable : Bool) (controller : List Step) (fmtStep : Step)
+    (diffExists : Bool) (io : FmtIO) : Outcome × FmtEffects :=
+  if !m.valid srcWritable then (failStep .other [], FmtEffects.none)
+  else
+    match runSteps (controller ++ [fmtStep]) with
+    | some o => (o, FmtEffects.none)
+    | none => fmtTail m diffExists io
+
+def format (m : FmtMode) (srcWritable : Bool) (controller : List Step) (fmtStep : Step)
+    (diffExists : Bool) (io : FmtIO) : Outcome :=
+  (formatFull m srcWritable controller fmtStep diffExists io).1
 
 /-- The four commands of the property with the abstract results of their steps. -/
 inductive Cmd where
   | lint (controller checks : List Step)
   | breaking (controller checks : List Step)
   | build (controller : List Step)
-  | format (exitCodeFlag : Bool) (controller : List Step) (fmtStep : Step) (diffExists : Bool) (output : Step)
+  | format (mode : FmtMode) (srcWritable : Bool) (controller : List Step) (fmtStep : Step)
+      (diffExists : Bool) (io : FmtIO)
 deriving Repr
 
 def Cmd.run : Cmd → Outcome
   | .lint c k => lintLike c k
   | .breaking c k => lintLike c k
   | .build c => BufModel.Annot.build c
-  | .format fl c f d o => BufModel.Annot.format fl c f d o
+  | .format m sw c f d io => BufModel.Annot.format m sw c f d io
 
 end BufModel.Annot
